@@ -17,6 +17,31 @@ CLAIMED = {
         text="Proof (full): symmetric, duplicate-free membership for every history incl. nested/self-member universes "
              "(uni_inv_reachable); insertion order, removal order, frame and ValueError-with-no-change characterised per call.",
         note=N, design="6/C02", technique=T),
+    "C03": dict(
+        text="Proof (full): transcript equality between the transliterated code model and the plain reference model for every "
+             "history (transcripts_equal), plus the documented effects of edge creation, end assignment, unlink (incl. independence "
+             "of set iteration order), dontdup and constructor type errors as theorems about step.",
+        note=N, design="6/C03", technique=T),
+    "C04": dict(
+        text="Proof (full): per-link decision = documented rule table, answer = ordered flat_map over v.links, error characterisation, "
+             "FORWARD/BACKWARD duality; the cascade is REGENERATED from helpers.py by a fail-closed translator on every run and "
+             "re-proved equal to the model's (NbrsGen.v); exhaustive 1620-row decision matrix + random multigraphs as correspondence.",
+        note=N + " Translator (translate/helpers_to_coq.py) is in the trusted base for the secondary tie only.", design="6/C04",
+        technique="Coq proof (finite case analysis + list induction) over translator-regenerated cascade + exhaustive row correspondence"),
+    "C06": dict(
+        text="Proof (full): each of bft/dft_recursive/dft_iterative lists exactly the reachable in-universe vertices, NoDup, start first; "
+             "three agree (Permutation); ff_result = filter; termination on every heap satisfying the C01 invariant. Half-assigned "
+             "edges (None neighbour) are modelled and tied; the reachability theorem covers runs that return.",
+        note=N, design="6/C06", technique="Coq proof (loop invariants over fuelled loops, fuel bounds) + state-import correspondence"),
+    "C07": dict(
+        text="Proof (full): BFS shortest-distance level order and canonical-scan equality; dft_recursive = pre-order relation; "
+             "dft_iterative = pre-order over reversed neighbour lists (both directions); determinism in the link order.",
+        note=N, design="6/C07", technique="Coq proof (queue invariant, defunctionalisation) + state-import sequence correspondence"),
+    "C08": dict(
+        text="Proof (full): each search = List.find over its traversal's listing (simulation of the early-exit loops), start eligible, "
+             "result listed and matching, None iff no listed match, termination; attribute equality abstracted to a predicate the "
+             "harness computes with hasattr and ==.",
+        note=N, design="6/C08", technique="Coq proof (lock-step simulation search vs traversal) + state-import correspondence"),
     "C18": dict(
         text="Proof (full): theorems over all histories of constructions/clears over any set of classes "
              "(same instance between clears, __init__ once with first args, own instance per class, clear frame rules), "
